@@ -3,7 +3,7 @@
    JSON is an oracle: [encode]/[decode] are universally quantified and constrained by
    the named laws [roundtrip], [prefix_safe], [empty_invalid]. *)
 From Coq Require Import ZArith List Bool.
-From V Require Import Bytes StrGo Route RouteProofs C18Users C18Tables C18CrashFs C18TableProofs C18CrashProofs C18EndToEnd C18CanonStable.
+From V Require Import Bytes StrGo Route RouteProofs C18Users C18Tables C18CrashFs C18TableProofs C18CrashProofs C18EndToEnd C18CanonStable C18Conc C18ConcProofs.
 Import ListNotations.
 Open Scope Z_scope.
 
@@ -216,6 +216,80 @@ Theorem C18_round_model_passes : forall (T : Type) (encode : T -> bytes) (decode
   round_ok teqb told t (Nat.eqb i 5) (fload decode dflt tgt s') = true.
 Proof. exact (@round_model_passes). Qed.
 Print Assumptions C18_round_model_passes.
+
+(* ---- the managers under concurrent use: every interleaving of API calls (atomic, under the lock),
+   Flushes split into begin / provider write (or failure) / clear, and crashes; VWhole = the lock
+   discipline of the code (the whole Flush under the write lock) ---- *)
+(* durability: in every reachable state, whatever is not in the file is still recorded as pending
+   (hence written by the next completed Flush) *)
+Theorem C18_conc_durable : forall es c,
+  crun user_ops VWhole (cstart user_ops) es = Some c -> durable user_ops c.
+Proof. exact users_conc_durable. Qed.
+Print Assumptions C18_conc_durable.
+
+Theorem C18_routes_conc_durable : forall url_ok es c,
+  crun (route_ops url_ok) VWhole (cstart (route_ops url_ok)) es = Some c -> durable (route_ops url_ok) c.
+Proof. exact routes_conc_durable. Qed.
+Print Assumptions C18_routes_conc_durable.
+
+(* after any interleaving, a Flush completed from a quiescent state leaves file = table, nothing pending,
+   the table untouched; a crash + restart then gives back exactly that table *)
+Theorem C18_conc_flush_exact : forall es c f c',
+  crun user_ops VWhole (cstart user_ops) es = Some c -> no_flusher c = true ->
+  (crun user_ops VWhole c [EBegin f; EWrite f true; EClear f] = Some c' \/ crun user_ops VWhole c [EOp MFlush] = Some c') ->
+  m_tab (c_st c') = m_tab (c_st c) /\ pend_empty (c_st c') = true /\ load user_ops (c_d c') = m_tab (c_st c') /\
+  forall c'', crun user_ops VWhole c' [ECrash] = Some c'' -> m_tab (c_st c'') = m_tab (c_st c).
+Proof. exact users_conc_flush_exact. Qed.
+Print Assumptions C18_conc_flush_exact.
+
+Theorem C18_routes_conc_flush_exact : forall url_ok es c f c',
+  let R := route_ops url_ok in
+  crun R VWhole (cstart R) es = Some c -> no_flusher c = true ->
+  (crun R VWhole c [EBegin f; EWrite f true; EClear f] = Some c' \/ crun R VWhole c [EOp MFlush] = Some c') ->
+  m_tab (c_st c') = m_tab (c_st c) /\ pend_empty (c_st c') = true /\ load R (c_d c') = m_tab (c_st c') /\
+  forall c'', crun R VWhole c' [ECrash] = Some c'' -> m_tab (c_st c'') = m_tab (c_st c).
+Proof. exact routes_conc_flush_exact. Qed.
+Print Assumptions C18_routes_conc_flush_exact.
+
+(* the lock narrowed to a read lock for check + write, the write lock only for the clear: an edit gets in
+   between, its dirty record is cleared, every later Flush writes nothing, a restart loses the edit *)
+Theorem C18_narrow_lock_refuted :
+  lost_edit VNarrow [EOp (MSave (alice, true)); EBegin 0; EWrite 0 true; EOp (MSave (bob, true)); EClear 0].
+Proof. exact narrow_lock_refuted. Qed.
+Print Assumptions C18_narrow_lock_refuted.
+
+Theorem C18_narrow_schedule_excluded_by_whole :
+  crun user_ops VWhole (cstart user_ops)
+       [EOp (MSave (alice, true)); EBegin 0; EWrite 0 true; EOp (MSave (bob, true)); EClear 0] = None.
+Proof. exact narrow_schedule_excluded_by_whole. Qed.
+Print Assumptions C18_narrow_schedule_excluded_by_whole.
+
+Theorem C18_clear_first_refuted : lost_edit VClearFirst [EOp (MSave (alice, true)); EBegin 0; EWrite 0 false].
+Proof. exact clear_first_refuted. Qed.
+Print Assumptions C18_clear_first_refuted.
+
+Theorem C18_no_lock_refuted :
+  lost_edit VNoLock [EOp (MSave (alice, true)); EBegin 0; EWrite 0 true; EOp (MSave (bob, true)); EClear 0].
+Proof. exact no_lock_refuted. Qed.
+Print Assumptions C18_no_lock_refuted.
+
+(* the oracle of the schedule replay accepts the model *)
+Theorem C18_conc_model_passes : forall es,
+  sok user_ops VWhole (rstart user_ops) es (snd (srun user_ops VWhole (rstart user_ops) es)) = true.
+Proof. exact users_conc_model_passes. Qed.
+Print Assumptions C18_conc_model_passes.
+
+Theorem C18_routes_conc_model_passes : forall url_ok es,
+  let R := route_ops url_ok in sok R VWhole (rstart R) es (snd (srun R VWhole (rstart R) es)) = true.
+Proof. exact routes_conc_model_passes. Qed.
+Print Assumptions C18_routes_conc_model_passes.
+
+Example C18_conc_nonvacuous :
+  exists c, crun user_ops VWhole (cstart user_ops)
+      [EOp (MSave (alice, true)); EBegin 0; EWrite 0 false; EOp (MSave (bob, true));
+       EBegin 1; EWrite 1 true; EClear 1; ECrash; EOp MAll] = Some c /\
+    length (m_tab (c_st c)) = 3%nat /\ durableb user_ops c = true.
+Proof. exact conc_nonvacuous. Qed.
 
 (* ---- non-vacuity ---- *)
 (* the JSON laws are satisfiable together *)
